@@ -43,6 +43,40 @@ Theorem every_stored_value_is_an_envelope : forall ops v,
 Proof. intros ops. apply run_writes_sval. intros v []. Qed.
 Print Assumptions every_stored_value_is_an_envelope.
 
+(* KEYSET INFO: the cleartext member of every stored value describes exactly the keys of the encrypted keyset, oldest
+   first, the newest being primary, by their public descriptions — and is public data: it is `safe` to hand out
+   (so no_secret_leaks covers it: it is part of every stored value the adversary holds) *)
+Theorem keyset_info_describes_the_keyset : forall ops v,
+  In v (writes (run init ops)) ->
+  exists d keys, v = Tup [AEnc (Bytes d) empty (Tup (map Bytes keys)); AEnc master empty (Bytes d);
+                          Tup [Junk (last_key keys); Tup (map Junk keys)]].
+Proof. intros ops. apply run_writes_sval. intros v []. Qed.
+Print Assumptions keyset_info_describes_the_keyset.
+
+Theorem keyset_info_is_public : forall keys, safe (info keys) = true.
+Proof. exact info_safe. Qed.
+Print Assumptions keyset_info_is_public.
+
+(* what it excludes: a keysetInfo that carries key bytes (a "debug" member, a type URL extended with the key) leaks *)
+Theorem keyset_info_with_key_bytes_would_leak :
+  derivable [Tup [AEnc (Bytes (dk 0)) empty (Tup [Bytes (ka 0)]); AEnc master empty (Bytes (dk 0));
+                  Tup [Junk (ka 0); Tup [Tup [Junk (ka 0); Bytes (ka 0)]]]]] (Bytes (ka 0)).
+Proof.
+  eapply DProj with (l := [Junk (ka 0); Bytes (ka 0)]); [|right; left; reflexivity].
+  eapply DProj with (l := [Tup [Junk (ka 0); Bytes (ka 0)]]); [|left; reflexivity].
+  eapply DProj with (l := [Junk (ka 0); Tup [Tup [Junk (ka 0); Bytes (ka 0)]]]); [|right; left; reflexivity].
+  eapply DProj; [apply DKnown; left; reflexivity | right; right; left; reflexivity].
+Qed.
+Print Assumptions keyset_info_with_key_bytes_would_leak.
+
+(* RESTART: a new secret lock instance and key manager over the same store write and return nothing and leave every
+   keyset as it was; no_secret_leaks and nonces_never_repeat_under_a_key are over histories with restarts anywhere *)
+Theorem restart_writes_nothing : forall st,
+  writes (fst (step st Reopen)) = writes st /\ outs (fst (step st Reopen)) = outs st /\
+  issued (fst (step st Reopen)) = issued st /\ snd (step st Reopen) = ([], [], true).
+Proof. exact reopen_nothing. Qed.
+Print Assumptions restart_writes_nothing.
+
 (* WRONG LOCK FAILS: a key manager opened over any store content with another master key reads no keyset;
    with the right one it reads every keyset *)
 Theorem wrong_master_key_fails : forall ops v mk,
@@ -113,9 +147,11 @@ Print Assumptions constant_wrapping_key_would_leak.
 
 (* non-vacuity: a history writing four envelopes, with an import, a rotation and exports *)
 Example no_secret_leaks_nonvacuous :
-  let st := run init [Create true; Import 8001; Rotate 0; CreateExport false; Export 2; Get 1] in
+  let st := run init [Create true; Import 8001; Rotate 0; Reopen; CreateExport false; Export 2; Get 1] in
   length (writes st) = 4%nat /\
   nth 2%nat (writes st) empty = sval (dk 2) [ka 0; ka 2] /\
+  sval (dk 2) [ka 0; ka 2] = Tup [AEnc (Bytes 15) empty (Tup [Bytes 5; Bytes 13]); AEnc master empty (Bytes 15);
+                                  Tup [Junk 13; Tup [Junk 5; Junk 13]]] /\
   outs st = [Kdf [Pub 5]; Kdf [Pub 8001]; Kdf [Pub 13]; Pub 13] /\
   read_keyset master (nth 2%nat (writes st) empty) = Some (Tup [Bytes 5; Bytes 13]) /\
   read_keyset (Bytes 9) (nth 2%nat (writes st) empty) = None /\
